@@ -90,6 +90,8 @@ type FuncGen struct {
 	callsExternalUnmodelled map[string]bool
 	order []*ssa.BasicBlock
 	heapSeen map[string]bool
+	logCalls map[*ssa.Call]*logInfo
+	logList []*logInfo
 	heapQueue [][2]string
 }
 
@@ -257,6 +259,7 @@ func (g *Gen) GenFunc(fn *ssa.Function) (*FuncGen, error) {
 	fg.st = State{}
 	fg.collectDebugRefs()
 	fg.findLoops()
+	fg.findLogCalls()
 	// requires
 	fg.curReach = "true"
 	if fg.c != nil {
@@ -408,6 +411,7 @@ func (fg *FuncGen) baseEnv(st, old State) *Env {
 
 func (fg *FuncGen) funcEnv(st, old State, results []TTerm) *Env {
 	env := fg.baseEnv(st, old)
+	env.lookup = func(name string) (TTerm, bool) { return fg.logName(name, env.st) }
 	for _, p := range fg.fn.Params {
 		env.vars[p.Name()] = fg.val[p][0]
 	}
@@ -520,6 +524,9 @@ func (fg *FuncGen) loopEnv(li *loopInfo, st State, phiVals map[*ssa.Phi]string) 
 		env.vars[p.Name()+"0"] = fg.val[p][0] // entry value
 	}
 	env.lookup = func(name string) (TTerm, bool) {
+		if t, ok := fg.logName(name, env.st); ok {
+			return t, true
+		}
 		if name == "iter" && li.isRangeIndex {
 			for _, in := range li.header.Instrs {
 				if phi, ok := in.(*ssa.Phi); ok && phi.Comment == "rangeindex" {
@@ -923,6 +930,13 @@ func (fg *FuncGen) modifiedFamilies(li *loopInfo) map[string]bool {
 	for b := range li.blocks {
 		for _, in := range b.Instrs {
 			fg.g.instrEffects(in, mod)
+			if c, ok := in.(*ssa.Call); ok {
+				if l := fg.logCalls[c]; l != nil {
+					for _, f := range l.fams {
+						mod[f] = true
+					}
+				}
+			}
 		}
 	}
 	return mod
@@ -1018,7 +1032,7 @@ func (fg *FuncGen) loopHead(li *loopInfo, fwd []*ssa.BasicBlock, in string, rnam
 			fg.emit("(assert (>= %s %s))", sym, before)
 			continue
 		}
-		if strings.HasPrefix(f, "IT_") {
+		if strings.HasPrefix(f, "IT_") || strings.HasPrefix(f, "LOG_") {
 			continue
 		}
 		if !assigned[f] && strings.HasPrefix(fg.g.families[f], "(Array Int") {
@@ -1027,6 +1041,14 @@ func (fg *FuncGen) loopHead(li *loopInfo, fwd []*ssa.BasicBlock, in string, rnam
 		}
 	}
 	li.headSt = fg.st.Copy()
+	// every reference held in a loop-carried variable was allocated before this point
+	for _, instr := range b.Instrs {
+		phi, ok := instr.(*ssa.Phi)
+		if !ok {
+			break
+		}
+		fg.assumeBelow(fg.val[phi][0], fg.famIn(fg.st, "wm"))
+	}
 	for _, ai := range li.autoInv {
 		fg.emit("(assert (=> %s %s)) ; automatic range-index invariant", rname, ai(li.phiHead))
 	}
@@ -1131,6 +1153,9 @@ func (fg *FuncGen) finishReturns() {
 		fg.curReach = fg.reach[b]
 		env := fg.funcEnv(fg.retSt[b], State{}, fg.retVals[b])
 		for i, en := range fg.c.Ensures {
+			if en.Defines {
+				continue
+			}
 			t := env.Tr(en.E)
 			if fg.err != nil {
 				fg.err = fmt.Errorf("%s: %v", en.Pos, fg.err)
@@ -1318,4 +1343,116 @@ func (fg *FuncGen) flushHeaps() {
 		}
 		fg.segIdx = save
 	}
+}
+
+// Call logs: for every call to a repository function inside a range-over-slice loop the generator
+// keeps ghost arrays indexed by the iteration number holding the call's results, so that loop
+// invariants and postconditions can speak about "the k-th result" (names log<N>, log<N>e).
+type logInfo struct {
+	n     int
+	call  *ssa.Call
+	li    *loopInfo
+	fams  []string
+	sorts []string
+}
+
+func (fg *FuncGen) findLogCalls() {
+	fg.logCalls = map[*ssa.Call]*logInfo{}
+	var calls []*ssa.Call
+	for _, b := range fg.fn.Blocks {
+		for _, in := range b.Instrs {
+			c, ok := in.(*ssa.Call)
+			if !ok || c.Common().IsInvoke() {
+				continue
+			}
+			callee := c.Common().StaticCallee()
+			if callee == nil || !fg.g.IsRepoFunc(callee) || callee.Signature.Results().Len() < 2 {
+				continue
+			}
+			// innermost range-index loop containing the call
+			var best *loopInfo
+			for _, li := range fg.loops {
+				if li.isRangeIndex && li.blocks[b] {
+					if best == nil || len(li.blocks) < len(best.blocks) {
+						best = li
+					}
+				}
+			}
+			if best == nil {
+				continue
+			}
+			// only when that loop is the innermost loop around the call
+			inner := false
+			for _, li := range fg.loops {
+				if li != best && li.blocks[b] && len(li.blocks) < len(best.blocks) {
+					inner = true
+				}
+			}
+			if inner {
+				continue
+			}
+			fg.logCalls[c] = &logInfo{call: c, li: best}
+			calls = append(calls, c)
+		}
+	}
+	sort.Slice(calls, func(i, j int) bool { return calls[i].Pos() < calls[j].Pos() })
+	for i, c := range calls {
+		l := fg.logCalls[c]
+		l.n = i + 1
+		res := c.Common().Signature().Results()
+		for k := 0; k < res.Len(); k++ {
+			srt := fg.g.SortOf(res.At(k).Type())
+			fam := fg.g.Family(fmt.Sprintf("LOG_%s_%d_%d", smtIdent(shortKey(fg.key)), l.n, k), "(Array Int "+srt+")")
+			l.fams = append(l.fams, fam)
+			l.sorts = append(l.sorts, srt)
+		}
+		fg.logList = append(fg.logList, l)
+	}
+}
+
+func (fg *FuncGen) logRangeIndex(li *loopInfo) string {
+	for _, in := range li.header.Instrs {
+		if add, ok := in.(*ssa.BinOp); ok && add.Op == token.ADD {
+			if phi, ok := add.X.(*ssa.Phi); ok && phi.Comment == "rangeindex" {
+				return fg.valueOf(add).S
+			}
+		}
+	}
+	return "0"
+}
+
+func (fg *FuncGen) recordLog(c *ssa.Call, rs []TTerm) {
+	l := fg.logCalls[c]
+	if l == nil {
+		return
+	}
+	idx := fg.logRangeIndex(l.li)
+	for k, f := range l.fams {
+		if k < len(rs) {
+			fg.setFam(f, "(store "+fg.famIn(fg.st, f)+" "+idx+" "+rs[k].S+")")
+		}
+	}
+}
+
+// logName resolves log<N> / log<N>e against a state.
+func (fg *FuncGen) logName(name string, st State) (TTerm, bool) {
+	if !strings.HasPrefix(name, "log") {
+		return TTerm{}, false
+	}
+	rest := name[3:]
+	k := 0
+	if strings.HasSuffix(rest, "e") {
+		k = 1
+		rest = rest[:len(rest)-1]
+	}
+	n := 0
+	if _, err := fmt.Sscan(rest, &n); err != nil {
+		return TTerm{}, false
+	}
+	for _, l := range fg.logList {
+		if l.n == n && k < len(l.fams) {
+			return TTerm{S: fg.famIn(st, l.fams[k]), Sort: "(Array Int " + l.sorts[k] + ")"}, true
+		}
+	}
+	return TTerm{}, false
 }
